@@ -27,7 +27,11 @@ CONSTANTS
   TenRanges <- Rng0
   TenDamps <- One1
   TenArms <- One1
+  TenZero <- NoTz
+  SpPairs <- NoSpS
+  SpArms <- One0
   Level = 3
+  Tie = FALSE
   Rand = FALSE
 INVARIANT TypeOK
 INVARIANT FramesProper
@@ -48,4 +52,7 @@ INVARIANT DamperDissipates
 INVARIANT GravcompCancels
 INVARIANT FullGravcompBalances
 INVARIANT RestAtReferenceIsForceFree
+INVARIANT SpatialJacIsDerivative
+INVARIANT SpatialMassOK
+INVARIANT ConstraintJacIsDerivative
 CHECK_DEADLOCK FALSE
